@@ -2242,7 +2242,7 @@ def desugar_comprehensions(fn):
             def effectful(c):
                 parts = ([c.key, c.value] if isinstance(c, ast.DictComp) else [c.elt]) + list(c.generators[0].ifs)
                 return any(isinstance(n, ast.Call) for p_ in parts for n in ast.walk(p_))
-            if isinstance(val, (ast.DictComp, ast.ListComp, ast.SetComp)) and len(val.generators) == 1 and not val.generators[0].is_async and effectful(val):
+            if isinstance(val, (ast.DictComp, ast.ListComp, ast.SetComp)) and len(val.generators) == 1 and not val.generators[0].is_async and (effectful(val) or isinstance(val, ast.DictComp)):
                 g = val.generators[0]
                 # comprehension variables live in a scope of their own: rename them apart when the name occurs anywhere else in the function
                 inside = {id(n) for n in ast.walk(val)} - {id(n) for n in ast.walk(g.iter)}
